@@ -114,6 +114,7 @@ class Gen:
         self.structs = []
         self.counter = 0
         self.in_closure = False
+        self.expr_depth = 2
         self.helpers = []          # earlier functions usable in calls: (name, param types, result types)
 
     # ---------- expressions (pure) ----------
@@ -237,7 +238,7 @@ class Gen:
             if k < 3:
                 ty = self.scalar_type()
                 name = self.fresh_or_shadow(env)
-                out.append("%s%s := %s" % (pad, name, self.typed(ty, self.expr(env, ty, 2))))
+                out.append("%s%s := %s" % (pad, name, self.typed(ty, self.expr(env, ty, self.expr_depth))))
                 out.append(self.use(pad, name, ty))
                 env.append(Var(name, ty, False))
             elif k < 5:
@@ -249,7 +250,7 @@ class Gen:
                 elif r.random() < 0.3:
                     out.append("%svar %s %s" % (pad, name, tyname(ty)))
                 else:
-                    out.append("%svar %s %s = %s" % (pad, name, tyname(ty), self.expr(env, ty, 2)))
+                    out.append("%svar %s %s = %s" % (pad, name, tyname(ty), self.expr(env, ty, self.expr_depth)))
                 out.append(self.use(pad, name, ty))
                 env.append(Var(name, ty, True))
             elif k < 8:
@@ -705,7 +706,7 @@ class Gen:
                 parts.append(self.r.choice(vs).name if vs else {"[]uint64": "make([]uint64, 1)", "*S0": "&S0{a: 1}", "map[uint64]uint64": "make(map[uint64]uint64)",
                                                                  "[]byte": "make([]byte, 2)", "S0": "S0{a: 2, b: true}", "*uint64": "new(uint64)"}[t])
             else:
-                parts.append(self.expr(env, t, 2))
+                parts.append(self.expr(env, t, self.expr_depth))
         return ", ".join(parts)
 
     def func(self, name):
@@ -803,10 +804,11 @@ def gl_arg(t, v):
     return "str:%s" % (v.encode().hex() or "-")
 
 
-def package(seed, nfuncs=12, features=None, nvec=3):
+def package(seed, nfuncs=12, features=None, nvec=3, expr_depth=2):
     """Returns (files, calls) — files: {name: content}; calls: [(label, fn, [gl args])]."""
     rnd = random.Random(seed)
     g = Gen(rnd, features if features is not None else ALL_FEATURES)
+    g.expr_depth = expr_depth
     for k in range(nfuncs):
         g.func("f%d" % k)
     decls = [g.funcs[k][3] for k in range(len(g.funcs))]
